@@ -197,7 +197,7 @@ def encode_frame(fd, rnd, ctx=None):
 # ------------------------------------------------------------------ connection
 DEFAULT_QUIC_SPEC = dict(
     kind="quic", seed=1, suite=0x1301, offered=None, dcid_len=8, c_scid_len=8, s_scid_len=8,
-    retry=False, token_len=0, hs_gaps=None, early=0, early_late=0, half_rtt=0, early_suite=None, split_ch=0, ch_shuffle=False, split_shs=0, cert_len=600,
+    retry=False, token_len=0, hs_gaps=None, early=0, early_late=0, half_rtt=0, ch_retx=0, early_suite=None, split_ch=0, ch_shuffle=False, split_shs=0, cert_len=600,
     hs_coalesce=True,         # server Initial+Handshake (and client Initial+Handshake) in one datagram
     steps=[],                 # application-phase history, see QuicConn._step
 )
@@ -417,6 +417,12 @@ class QuicConn:
                 chunks = [d]
                 self.features.add("0rtt_coalesced")
             self.dgram(False, *pk, chunks=chunks)
+        for _ in range(sp.get("ch_retx", 0)):
+            # the client's probe timeout fired: the ClientHello is sent again in a new Initial packet (same CRYPTO offsets and bytes)
+            g = groups[-1] if sp.get("ch_retx_last_only") else [x for gg in groups for x in gg]
+            fr = b"".join(f for f, _ in g)
+            self.dgram(False, self.packet("initial", False, fr + b"\x00" * max(0, 1200 - len(fr)), parts=[p for _, p in g]))
+            self.features.add("clienthello_retransmitted")
 
     def _handshake(self):
         sp, rnd = self.spec, self.rnd
